@@ -31,7 +31,7 @@ ANCHORS = [
     "acnportal.acnsim.interface:Interface._infrastructure_info",
     "acnportal.algorithms.utils:infrastructure_constraints_feasible",
 ]
-REQUIRED = ["schedules_whose_currents_cancel_across_stations", "schedules_of_over_1000_periods", "decisive_column_positions_judged", "integer_row_first_in_mapping", "explicit_tolerances_differ_from_network", "explicit_zero_tolerance_on_tolerant_network", "phasor_judged", "linear_judged", "near_boundary_judged", "constraint_free_sim_runs", "history_rejudged",
+REQUIRED = ["history_op:update_with_a_current_derived_from_the_registered_object", "schedules_whose_currents_cancel_across_stations", "schedules_of_over_1000_periods", "decisive_column_positions_judged", "integer_row_first_in_mapping", "explicit_tolerances_differ_from_network", "explicit_zero_tolerance_on_tolerant_network", "phasor_judged", "linear_judged", "near_boundary_judged", "constraint_free_sim_runs", "history_rejudged",
             "history_op:remove_not_last", "history_op:update", "history_op:update_rename", "history_op:add",
             "regime:phasor-accept", "regime:phasor-reject", "regime:linear-accept", "regime:linear-reject",
             "regime:T>1", "regime:mixed-sign"]
@@ -389,7 +389,20 @@ def _run_hist(case, obs):
             lim = round(rng.uniform(1, 500), 3)
             new = cons[j]["name"] if op == "update" else f"r{fresh}"
             fresh += 1
-            net.update_constraint(cons[j]["name"], Current(dict(co)), lim, new_name=None if op == "update" else new)
+            newcur = Current(dict(co))
+            old_obj = build.LAST_CURRENTS.get(cons[j]["name"])
+            if old_obj is not None and rng.random() < 0.4:
+                # the update is given a Current derived from the very object registered under that name
+                k_ = rng.choice([0.5, 2, -1, 3])
+                if rng.random() < 0.5:
+                    newcur, co = k_ * old_obj, {s_: k_ * v_ for s_, v_ in cons[j]["coeffs"].items()}
+                else:
+                    newcur, co = old_obj + newcur, {s_: cons[j]["coeffs"].get(s_, 0) + co.get(s_, 0) for s_ in set(cons[j]["coeffs"]) | set(co)}
+                co = {s_: v_ for s_, v_ in co.items()}
+                obs.ev("history_op:update_with_a_current_derived_from_the_registered_object")
+            build.LAST_CURRENTS.pop(cons[j]["name"], None)
+            build.LAST_CURRENTS[new] = newcur
+            net.update_constraint(cons[j]["name"], newcur, lim, new_name=None if op == "update" else new)
             del cons[j]
             cons.append({"name": new, "coeffs": co, "limit": lim})
             obs.ev("history_op:" + op)
@@ -399,7 +412,9 @@ def _run_hist(case, obs):
             lim = round(rng.uniform(1, 500), 3)
             nm = f"n{fresh}"
             fresh += 1
-            net.add_constraint(Current(dict(co)), lim, name=nm)
+            cur_ = Current(dict(co))
+            build.LAST_CURRENTS[nm] = cur_
+            net.add_constraint(cur_, lim, name=nm)
             cons.append({"name": nm, "coeffs": co, "limit": lim})
             obs.ev("history_op:add")
         if list(net.constraint_index) != [c["name"] for c in cons]:
